@@ -41,6 +41,8 @@ M = [
     ("C07-extra-dropped", "C07 C08", "kernel/hash/hashbuffer.cpp", "  if (has_extra)\n  {\n    has_extra = false;", "  if (has_extra && total > 0)\n  {\n    has_extra = false;"),
     ("C07-sha256-k", "C07", "kernel/hash/sha256.cpp", "0x428a2f98", "0x428a2f99"),
     ("C08-ipad-opad", "C08 C02", "kernel/fheader.h", "static const u8_t ipad = 0x36, opad = 0x5c;", "static const u8_t ipad = 0x5c, opad = 0x36;"),
+    ("C08-static-scratch", "C08", "kernel/fheader.cpp", "u8_t *key1 = new u8_t[block], *h1 = new u8_t[block], *h2 = new u8_t[block + length];", "static u8_t h2s[64 + 32];\n    u8_t *key1 = new u8_t[block], *h1 = new u8_t[block], *h2 = h2s;"),
+    ("C07-sha256-static-w", "C07", "kernel/hash/sha256.cpp", "  u32_t temph[8];\n  memcpy(temph, h, sizeof(h));\n  for (u32_t i = 0; i < 64; ++i)", "  static u32_t temph[8];\n  memcpy(temph, h, sizeof(h));\n  for (u32_t i = 0; i < 64; ++i)"),
     ("C08-tag-at-9", "C08 C02", "kernel/cry.h", "#define FILE_HMAC_MARK 10", "#define FILE_HMAC_MARK 9"),
     ("C09-sbox", "C09", "kernel/multi_aes/aes/tab.h", "0x63, 0x7C, 0x77, 0x7B,", "0x63, 0x7C, 0x77, 0x7A,"),
     ("C09-rowshift", "C09", "kernel/multi_aes/aes/aes.cpp", "    w.g[i] = rrot(t, i << 3);", "    w.g[i] = rrot(t, (i == 3 ? 2 : i) << 3);"),
